@@ -294,6 +294,13 @@ class workq:
         )
 
     def pop(self, channels):
+        while True:
+            j = self._pop(channels)
+            if not j.done:
+                return j
+            # killed or timed out between hand-over and wake-up: wait for the next one
+
+    def _pop(self, channels):
         try_channels = channels if channels else list(self.channel2q.keys())
 
         self._preenall()
